@@ -64,8 +64,4 @@ fn read_n_chained<R: std::io::Read>(arena: &mut ByteArena, carried: &AnchoredSli
     r is Err ==> remaining(final(reader)) == remaining(old(reader)),
 { unimplemented!() }
 
-// ASSUMED (bounded Kani harness c07_find_stuff_sequence_bounded): first FE FD index or None
-#[verifier::external_body]
-fn find_stuff_sequence(bytes: &[u8]) -> (r: Option<usize>)
-    ensures match r { Some(i) => first_stuff(bytes@, i as int), None => no_stuff(bytes@) }
-{ unimplemented!() }
+// find_stuff_sequence: the real function is in the unit (verified, rule N16), no longer assumed
